@@ -15,7 +15,7 @@ CHECKS = {
    "Decides the algebra of conservation: D(Js+Jn) - B mu_b reduces to 0 as operator words using mu = L^-1 rhs and L = D@G (the latter "
    "established on symbolic COO blocks of the operators the solver actually builds, with no identity rows / link variable in the mu operators); "
    "boundary-flux columns integrate to the edge length; the terminal density is -(1/L_t) * sum of the other terminals' currents stored on exactly "
-   "the terminal's boundary edges, with L_t summed over the same edge set; J_scale equals 4[I]/[L]/K0 as an exact term in the unit sizes and is "
+   "the terminal's boundary edges for every terminal and every outcome of the change-detection cache (3 terminals, 8 paths), with L_t summed over the same edge set; J_scale equals 4[I]/[L]/K0 as an exact term in the unit sizes and is "
    "applied once; the balance test on the summed currents must be a tolerance test. Necessary conditions in exact arithmetic, not residual sizes.",
    "Trusted: pvs normaliser/semantic table, SuperLU/pardiso solve L mu = rhs. Declined: numerical size of the per-cell residual."),
  "C02": (True, "other", "symbolic value numbering of solve_for_psi_squared vs documented z, w, quad-root, psi-sol; CFG refusal discipline",
@@ -39,7 +39,7 @@ CHECKS = {
  "C05": (True, "other", "typestate on the statement CFG of the run loop; sibling agreement; shape domain {1,many}; prefix-sum typing",
    "Product-graph typestate search over the CFG of Runner._run_stage (events LABEL/UPDATE/SAVE/ADVANCE, exception edges from the update call and "
    "the frame writer): every save happens with exactly as many updates applied as the label says, on every path, with a witness path otherwise; save "
-   "predicates complementary; records appended once per update under the guards under which they are declared; cursor/clear discipline; the record "
+   "predicates complementary and the final step saved exactly once; stop test `time >= end_time` before each update; records appended once per update under the guards under which they are declared; cursor/clear discipline; the record "
    "writer's rank vs the reader's on the abstract shape domain; thermalisation never saved and clock reset; reported times are exclusive prefix sums.",
    "Exceptions only at the two injection points the property names; h5py creation order trusted."),
  "C06": (True, "other", "fixed-point obligation on an identity row (value numbering); row-mask typing of COO blocks; def-use wiring rules",
@@ -49,7 +49,7 @@ CHECKS = {
    "The static obligation is the per-step fixed point; it does not bound drift sizes."),
  "C07": (True, "other", "value numbering of the circumcentre formula and edge geometry; structural rules on edge extraction / dual-length branches",
    "Narrow claim: only the closed-form clauses - circumcentre equidistance identity, edges as sorted unique pairs with boundary = one incident "
-   "triangle, edge vectors/lengths/centres from the site pairs, the two dual-length branches and the +1/-1 adjacency offset. These are necessary "
+   "triangle, edge vectors/lengths/centres from the site pairs, the two dual-length branches and the +1/-1 adjacency offset, and that only unsigned area primitives flow into the cell areas. These are necessary "
    "conditions for the dual quantities being Voronoi quantities; tiling, Delaunay property, clipped boundary cells are declined.",
    "Everything computed by Triangle/qhull/shapely is declined (listed in evidence.declined_clauses)."),
  "C08": (True, "other", "dimension typing with exact unit-size factors (model of pint) + symbolic flux sum",
@@ -65,7 +65,7 @@ CHECKS = {
  "C10": (True, "other", "sibling agreement builder vs in-place refresh by abstract interpretation on symbolic vector potentials; guard/baseline dataflow rule",
    "Interprets MeshOperators symbolically through sequences A1->A2(->A3) and compares the refreshed matrices block by block (masks included) with a "
    "fresh build for the last potential, for pinned / unpinned / no terminals; every link-variable block is refreshed and nothing else; in "
-   "TDGLSolver.update a refresh guarded by a tolerance comparison must not forget the baseline, screening refreshes are unconditional.",
+   "TDGLSolver.update a guarded refresh must keep its baseline current on every path (tolerance guards must not forget it, exact guards must update it), screening refreshes are unconditional and every definition of the induced potential reaches the psi update only through a refresh.",
    "scipy __setitem__ overwrites existing entries; cupy branch declined."),
  "C11": (True, "other", "who-may-read audit of recording options; write-effect audit of observers; table/signature agreement; C05 typestate",
    "Recording options are read only by the runner/handler/construction site/post-processing; the update gets only (state, buffer, dt, **values); "
@@ -79,23 +79,23 @@ CHECKS = {
    "dt_init > 0 assumed (not validated by the library)."),
  "C13": (True, "other", "loop-nest summarisation of numba/cupy kernels; value numbering of the Polyak step; loop exit discipline",
    "Both kernels summarise to the documented direct double sum (accelerated == direct by form); call sites pass arguments in parameter order; the "
-   "Polyak update and relative error are the documented ones; the screening loop can only be left converged, by raising, or with screening off; "
+   "Polyak update and relative error are the documented ones and are fed the total current; the screening loop can only be left converged, by raising, or with screening off - never by exhausting a bounded iterator; "
    "screening off passes the induced potential through unchanged.",
    "Convergence/contraction of the iteration declined."),
  "C14": (True, "other", "writer/reader sibling agreement over HDF5 keys; Optional-default rule; slot coverage of __getstate__",
    "For six serialisable classes the keys written equal the keys read, optional keys are optional on both sides, readers feed every constructor "
    "parameter; options: Optional fields must survive the drop-None writer; Mesh.is_restorable tests the written key set; custom __getstate__ covers "
-   "assigned slots; callables use the same names; format detection keys on something always written.",
+   "assigned slots; callables use the same names; format detection keys on something always written; readers never default a stored falsy value; equality never truncates sequences.",
    "h5py/cloudpickle fidelity trusted."),
  "C15": (True, "other", "acquire/release pairing on exception edges (CFG); context-manager discipline; open-mode audit; create-then-fill rule",
-   "No exception edge leaves a file acquisition while an earlier file of the same attempt is open and on disk; the handler is only used as a "
+   "No exception edge leaves a file acquisition while an earlier file of the same attempt is open and on disk, and guarded resource variables are reset per attempt; the handler is only used as a "
    "context manager whose __exit__ always closes and never swallows; all h5py.File modes are r/x (r+ only on the own file); the interrupt handler "
    "either resumes or cancels and a cancelled recorded stage still yields a Solution; frame groups are complete or absent.",
    "h5py close() flushes; asynchronous interrupts between bookkeeping statements outside the model."),
  "C16": (True, "other", "operator-table exhaustiveness; abstract interpretation over operand kinds; isinstance-dominance; slot definite assignment",
    "All ten dunders pass (self, other)/(other, self) with the matching operator; __call__ equals operator(left value, right value) with t passed to "
    "exactly the time-dependent operands and time_dependent is the OR, for all 8 operand-kind pairs; every operand attribute access is dominated by "
-   "isinstance on that operand and exists on every admitted class; equality is structural; the solver's interface exists on every subclass.",
+   "isinstance on that operand and exists on every admitted class; equality is structural; the cache key covers every call argument; the solver's interface exists on every subclass.",
    "Operands' own values opaque."),
  "C17": (True, "other", "chain of exact identities at the symbolic uniform state (block row sums, value numbering with verified sqrt witness)",
    "At A = 0 the link variable is 1 and the rows of the covariant operators sum to zero (unpinned terminals); the update returns (1, 1) for all "
@@ -113,7 +113,7 @@ CHECKS = {
  "C20": (True, "other", "loop-nest summarisation of Biot-Savart/distance kernels; degree check; pint model; value numbering of the loop potential",
    "The vector kernel equals mu0/4pi sum a K x r / r^3 component by component, the z kernel equals its third component, all outputs are degree-1 in "
    "the currents; SI factors in biot_savart_2d and the four convert_field cases are exact; totals are exactly the sum of parts; the loop potential "
-   "equals the documented elliptic-integral closed form with azimuthal direction; distance kernels and cdist dispatch are the named metrics.",
+   "equals the documented elliptic-integral closed form with azimuthal direction; distance kernels and cdist dispatch are the named metrics; no post-processing function writes into its array arguments.",
    "Agreement with numerical quadrature declined."),
 }
 
